@@ -259,9 +259,15 @@ def fam_concave_caps(ctx, rng):
 
 def fam_open(ctx, rng):
     fam, faces, inside = solid_faces(rng)
-    mode = rng.choice(['remove1', 'remove2', 'duplicate'])
+    mode = rng.choice(['remove1', 'remove2', 'duplicate', 'remove_and_duplicate'])
     faces = list(faces)
-    if mode == 'remove1':
+    if mode == 'remove_and_duplicate':
+        # one face missing AND another one (same vertex count when there is one) given twice: naked and non-manifold edges together
+        gone = faces.pop(rng.randrange(len(faces)))
+        removed = [gone]
+        alike = [f for f in faces if len(f.vertices) == len(gone.vertices)] or faces
+        faces.append(rng.choice(alike))
+    elif mode == 'remove1':
         removed = [faces.pop(rng.randrange(len(faces)))]
     elif mode == 'remove2' and len(faces) > 4:
         removed = [faces.pop(rng.randrange(len(faces))), faces.pop(rng.randrange(len(faces)))]
@@ -280,7 +286,7 @@ def fam_open(ctx, rng):
         ctx.violation(kind + ':solid', 'polyface with a %s face reported solid' % ('missing' if removed else 'duplicated'), desc); return
     if not check_edges(ctx, kind, pf, pf.face_indices, desc):
         return
-    if mode == 'duplicate' and not pf.non_manifold_edges:
+    if mode in ('duplicate', 'remove_and_duplicate') and not pf.non_manifold_edges:
         ctx.violation(kind + ':no_non_manifold', 'duplicate face but no non-manifold edge', desc)
     if mode != 'duplicate' and not pf.naked_edges:
         ctx.violation(kind + ':no_naked', 'face removed but no naked edge', desc)
